@@ -81,9 +81,22 @@ int main(int argc, char** argv)
 
    int bufsize = (int)in.geti("bufsize", 0), len = (int)in.geti("len", -1);
    if(bufsize <= 0 || bufsize > 4096 || len < 0 || len >= bufsize) return 2;
-   std::vector<int> cells = in.getarr("line", bufsize, 0);
+   /* cells come as integers or as C character literals (' ', '\\r', ...); cells the trace does not mention are 'a' */
    std::vector<char> content(bufsize);
-   for(int k = 0; k < bufsize; k++) content[k] = (char)cells[k];
+   for(int k = 0; k < bufsize; k++)
+   {
+      std::ostringstream key;
+      key << "line[" << k << "]";
+      content[k] = 'a';
+      if(in.has(key.str()))
+      {
+         const std::string& v = in.kv.at(key.str());
+         if(v.size() >= 3 && v[0] == '\'')
+            content[k] = v[1] != '\\' ? v[1] : (v[2] == 'r' ? '\r' : v[2] == 'n' ? '\n' : v[2] == 't' ? '\t' : v[2] == '0' ? '\0' : v[2]);
+         else
+            content[k] = (char)std::atoi(v.c_str());
+      }
+   }
    content[len] = '\0';
    show("buffer", content);
 
@@ -137,6 +150,21 @@ int main(int argc, char** argv)
       delete[] b;
    }
    std::string what;
+   if(r1 == r2 && same_params(s1, s2, what) && inst == "line_exact")
+   {
+      /* The verifier's trace may start from a havoc'd loop state and then is not an execution.  Every content is
+       * admitted by the contract, so run the canonical witness of the failed obligation as well: a line whose
+       * first token ends exactly at the terminator in the last byte of an exactly sized buffer. */
+      std::vector<char> w(bufsize, 'a');
+      w[bufsize - 1] = '\0';
+      show("canonical witness", w);
+      char* b = new char[bufsize];
+      std::memcpy(b, w.data(), bufsize);
+      SoPlex s3;
+      s3.setIntParam(SoPlex::VERBOSITY, 0);
+      (void)s3._parseSettingsLine(b, 1);      /* ASan: read of b[bufsize] at soplex.hpp "search for the ':' char" loop */
+      delete[] b;
+   }
    if(r1 != r2)
       REPLAY_FAIL("result depends on the bytes behind the string terminator: " << r1 << " vs " << r2);
    if(!same_params(s1, s2, what))
